@@ -848,3 +848,34 @@ pub fn family_empty2() -> Vec<RefGrammar> {
     out.push(g(3, vec![vec![vec![T(0), R(1), T(1)]], vec![vec![T(2), R(2)]], vec![vec![]]]));
     out
 }
+
+/// F-chains: a rule that is nullable only through a chain of unit productions of depth d, used
+/// as the first symbol of a production, with the chain's rules defined before / after their
+/// users (fixed-point computations that stop a round too early show up here).
+/// `L: | L D; D: C0 'f' 'i' | 'u' 'i'; C0: C1; ...; Cd: ;`  tokens f=0 i=1 u=2.
+pub fn family_chains() -> Vec<RefGrammar> {
+    let mut out = vec![];
+    for d in 1..=4usize {
+        for reversed in [false, true] {
+            // logical rules: 0 = L, 1 = D, 2.. = chain C0..Cd
+            let n = 2 + d + 1;
+            // physical index of logical rule x
+            let phys = |x: usize| -> usize {
+                if x < 2 || !reversed { x } else { 2 + (n - 1 - x) }
+            };
+            let mut rules: Vec<Vec<Vec<Sym>>> = vec![vec![]; n];
+            rules[phys(0)] = vec![vec![], vec![R(phys(0)), R(phys(1))]];
+            rules[phys(1)] = vec![vec![R(phys(2)), T(0), T(1)], vec![T(2), T(1)]];
+            for k in 0..d {
+                rules[phys(2 + k)] = vec![vec![R(phys(2 + k + 1))]];
+            }
+            rules[phys(2 + d)] = vec![vec![]];
+            out.push(g(3, rules));
+            // the same with the chain in the middle of the production
+            let mut rules2 = out.last().unwrap().rules.clone();
+            rules2[phys(1)] = vec![vec![T(2), R(phys(2)), T(0)], vec![T(2), T(1)]];
+            out.push(g(3, rules2));
+        }
+    }
+    out
+}
